@@ -28,7 +28,7 @@ READ_OPS = ('getitem', 'getslice', 'find', 'rfind', 'findall', 'startswith', 'en
             'lshift', 'rshift', 'unpack', 'whole', 'pack', 'contains')
 STREAM_OPS = ('read', 'peek', 'readlist', 'setpos')
 MUT_OPS = ('setitem', 'setslice', 'setslice_int', 'delitem', 'delslice', 'set', 'invert', 'insert', 'overwrite',
-           'append', 'prepend', 'reverse', 'byteswap', 'replace', 'ilshift', 'irshift', 'rol', 'ror')
+           'append', 'prepend', 'reverse', 'byteswap', 'replace', 'ilshift', 'irshift', 'rol', 'ror', 'lazy_then')
 
 
 def rev(s):
@@ -193,6 +193,17 @@ class ELsb0(Engine):
                 ev['pos'] = [g.pos(n, 1) if g.chance(0.15) else (g.int(-n, n - 1) if n else 0) for _ in range(g.int(0, 5))]
             elif how == 'range':
                 ev['pos'] = [g.int(0, n), g.int(0, n + 1), g.pick([1, 1, 2, 3])]
+        elif op == 'lazy_then':
+            # a findall / cut generator is made, the object is changed before the first item is asked for, then the
+            # generator is consumed: a lazy result is set up on first use in msb0, so its lsb0 counterpart must be too
+            ev['what'] = g.pick(['findall', 'findall', 'cut'])
+            ev['bs'], ev['bs_form'] = self._sub_operand(g, xbits)
+            ev.update(start=g.pick([None, None, 0, g.pos(n)]), end=g.pick([None, None, None, g.pos(n)]), bytealigned=g.pick([None, None, False, True]), count=g.pick([None, None, 2]),
+                      bits=g.pick([1, 2, 3, 8]))
+            ev['mut'] = g.pick(['prepend', 'append', 'insert', 'invert', 'reverse'])       # (never shrinking: a stale msb0 range beyond the new end has no defined meaning)
+            ev['v'], ev['v_form'] = g.bits(g.pick([1, 2, 3, 8])), 'str'
+            ev['pos'] = g.pos(n)
+            ev['a'], ev['b'] = 0, g.int(0, min(n, 9))
         elif op in ('find', 'rfind', 'findall', 'replace', 'contains'):
             ev['bs'], ev['bs_form'] = self._sub_operand(g, xbits)
             if op != 'contains':
@@ -340,6 +351,26 @@ class ELsb0(Engine):
             if op == 'set':
                 return x.set(g('value', 1), arg) if arg is not None else x.set(g('value', 1))
             return x.invert(arg) if arg is not None else x.invert()
+        if op == 'lazy_then':
+            if g('what') == 'cut':
+                gen = x.cut(max(int(g('bits', 1)), 1), g('start'), g('end'), g('count'))
+            else:
+                gen = x.findall(self._bs(R, ev, 'bs', mirror), g('start'), g('end'), g('count'), g('bytealigned'))
+            mut = g('mut')
+            v = self._bs(R, ev, 'v', mirror)
+            if mut == 'prepend':
+                x.prepend(v)
+            elif mut == 'append':
+                x.append(v)
+            elif mut == 'insert':
+                x.insert(v, min(max(int(g('pos', 0)), 0), len(x)))
+            elif mut == 'delslice':
+                del x[int(g('a', 0)):int(g('b', 0))]
+            elif mut == 'reverse':
+                x.reverse()
+            else:
+                x.invert()
+            return list(gen)
         if op in ('find', 'rfind'):
             return getattr(x, op)(self._bs(R, ev, 'bs', mirror), g('start'), g('end'), g('bytealigned'))
         if op == 'contains':
@@ -456,7 +487,7 @@ class ELsb0(Engine):
             d = canon(val)
             d['bin'] = rev(d['bin'])
             return d
-        if op in ('cut',) and isinstance(val, list):
+        if (op in ('cut',) or (op == 'lazy_then' and ev.get('what') == 'cut')) and isinstance(val, list):
             return [self._unmirror(ev, v) for v in val]
         if op in ('read', 'peek', 'readlist', 'unpack'):
             fmts = ev.get('fmt')
